@@ -76,7 +76,8 @@ TrExpand ==
     /\ LET known == Known(E.id)
            fam == IF known THEN ItemOf(E.id).family ELSE "real"
            prop == PropOfFamily(fam)
-           expectClean == known /\ ItemOf(E.id).expect = "clean"
+           \* ("rustc": the expansion raises nothing; the compiler rejects the program, see TrDiag)
+           expectClean == known /\ ItemOf(E.id).expect \in {"clean", "rustc"}
        IN /\ Chk(prop, "a_valid_item_expands_without_diagnostic_or_crash", l, expectClean => (E.verdict = "clean" /\ E.parsed))
           /\ Chk("C18", "an_item_breaking_a_documented_rule_is_rejected_with_a_diagnostic", l,
                  (known /\ ItemOf(E.id).expect = "dirty") => E.verdict = "dirty")
@@ -106,6 +107,9 @@ TrDiag ==
        /\ Chk("C18", "a_valid_program_compiles", l, it.expect = "clean" => Len(E.errors) = 0)
        /\ Chk("C18", "a_program_breaking_a_documented_rule_fails_to_compile_with_a_diagnostic_of_the_framework", l,
               it.expect = "dirty" => MacroDiags(E) # {})
+       /\ Chk("C18", "a_misplaced_marker_does_not_compile_and_the_error_points_at_it", l,
+              it.expect = "rustc" =>
+                  \E i \in 1..Len(E.errors) : ~E.errors[i].panicked /\ \E j \in 1..Len(it.sites) : E.errors[i].member = it.sites[j])
        /\ Chk("C18", "the_framework_reports_the_offence_instead_of_panicking", l,
               \A i \in 1..Len(E.errors) : ~E.errors[i].panicked)
        /\ Chk("C18", "the_diagnostic_points_at_the_offence", l,
